@@ -60,7 +60,7 @@ func RunGo(c Case) (res string) {
 			res = "panic"
 		}
 	}()
-	if c.Entry == eV4Accessor {
+	if c.Entry == eV4Accessor || c.Entry == 90 || c.Entry == 91 {
 		outs, ok := goRes[c.Line()]
 		if !ok {
 			return "err"
